@@ -4,6 +4,11 @@
   reason it cannot fail.  `C12_site_coverage` compares this hand-maintained list with the inventory regenerated from
   the source (`SA.Gen.panicSites`): a new or re-shaped site in these functions is not in this list and breaks the
   obligation until somebody has looked at it.
+
+  Since the bounds analysis of go/extract/x_c12_bounds.go the regenerated inventory holds only the sites whose safety
+  the extractor cannot establish from the dominating length guards (`len(x) >= k`, `len(x) >= len(d)+k`, early exits,
+  short-circuit operands); entries of this list whose site is discharged that way no longer occur in
+  `SA.Gen.panicSites` and are kept for the record (and for the day the guard is removed and the site re-appears).
 -/
 namespace SA.DnsServer
 
